@@ -80,9 +80,51 @@ func (sp *SeqPath) Index(label string) int {
 	return -1
 }
 
-type seqState struct{ evs []SeqEvent }
+type tookKey struct {
+	iff  *ssa.If
+	site *ssa.Call
+}
 
-func (s *seqState) Clone() UserState { return &seqState{evs: append([]SeqEvent(nil), s.evs...)} }
+type seqState struct {
+	evs  []SeqEvent
+	took map[tookKey]bool
+	// exact: the condition was a phi (`ctx && cmp`) that stood for the comparison itself on this path
+	exact map[tookKey]bool
+}
+
+func (s *seqState) Clone() UserState {
+	c := &seqState{evs: append([]SeqEvent(nil), s.evs...)}
+	if len(s.took) > 0 {
+		c.took = make(map[tookKey]bool, len(s.took))
+		for k, v := range s.took {
+			c.took[k] = v
+		}
+	}
+	if len(s.exact) > 0 {
+		c.exact = make(map[tookKey]bool, len(s.exact))
+		for k, v := range s.exact {
+			c.exact[k] = v
+		}
+	}
+	return c
+}
+
+// TookExact: the phi condition at iff stood for its comparison on this path.
+func (sp *SeqPath) TookExact(iff *ssa.If, site *ssa.Call) bool {
+	s, ok := sp.P.U.(*seqState)
+	return ok && s.exact[tookKey{iff, site}]
+}
+
+// Took: the edge the path took at branch iff the last time it got there (site: during that
+// call of the helper containing iff; nil: wherever).
+func (sp *SeqPath) Took(iff *ssa.If, site *ssa.Call) (taken, known bool) {
+	s, ok := sp.P.U.(*seqState)
+	if !ok || s.took == nil {
+		return false, false
+	}
+	taken, known = s.took[tookKey{iff, site}]
+	return
+}
 
 func CollectPaths(c *Ctx, spec SeqSpec) (paths []SeqPath, overflow bool) {
 	w := &Walker{C: c, Fn: spec.Fn}
@@ -102,6 +144,23 @@ func CollectPaths(c *Ctx, spec SeqSpec) (paths []SeqPath, overflow bool) {
 			}
 		}
 		return true
+	}
+	w.Branch = func(p *PState, x *ssa.If, taken bool) {
+		s := p.U.(*seqState)
+		if s.took == nil {
+			s.took = map[tookKey]bool{}
+		}
+		s.took[tookKey{x, nil}] = taken
+		_, isPhi := x.Cond.(*ssa.Phi)
+		_, isCmp := p.Resolve(x.Cond).(*ssa.BinOp)
+		if s.exact == nil {
+			s.exact = map[tookKey]bool{}
+		}
+		s.exact[tookKey{x, nil}] = isPhi && isCmp
+		if n := len(p.stack); n > 0 {
+			s.took[tookKey{x, p.stack[n-1].call}] = taken
+			s.exact[tookKey{x, p.stack[n-1].call}] = isPhi && isCmp
+		}
 	}
 	w.Exit = func(p *PState, ins ssa.Instruction) {
 		sp := SeqPath{Events: append([]SeqEvent(nil), p.U.(*seqState).evs...), Exit: ins, P: p, Trace: w.TraceStrings(p)}
